@@ -411,7 +411,6 @@ func checksumShape(f *ssa.Function) bool {
 	return zero && sum && okBound
 }
 
-
 // constReturn: the integer fn returns when its first parameter equals k, if that is the same
 // constant on every feasible path (engine E1 with the parameter pinned; reads of read-only
 // package-level tables resolve to their initialisers).
